@@ -119,7 +119,7 @@ class Contract:
         self.modifies_types.update(typed)
         return self
 
-    def loops(c_self, while_rule=False, body_check=None, **carried):
+    def loops(c_self, while_rule=False, body_check=None, decreases=None, **carried):
         """Invariant of the loops over collections of symbolic size in this function: the shape of every loop-carried variable;
         body_check(it, env, trace_mark) -> [(label, goal)]: element-wise postcondition of one arbitrary iteration."""
         spec = dict(carried)
@@ -127,6 +127,8 @@ class Contract:
             spec["__while__"] = True
         if body_check is not None:
             spec["__body_check__"] = body_check
+        if decreases is not None:
+            spec["__decreases__"] = decreases  # fn(it, env) -> VInt: the variant of the while loops of this function
         LOOP_SPECS[c_self.key] = spec
         return c_self
 
